@@ -12,7 +12,13 @@ checks = []
 for pid in all_ids:
     if pid not in props.THEOREMS:
         continue
-    info = props.CLAIMS[pid]
+    info = dict(props.CLAIMS[pid])
+    gen_names = [t for t in props.THEOREMS[pid] if t.startswith("Gen.") or t.startswith("Records.guards") or t.startswith("Records.writes_after")]
+    if gen_names and "Tied to the source by translation" not in info["text"]:
+        info["text"] = info["text"] + (" Tied to the source by translation: the following theorems are about Lean definitions REGENERATED from "
+                                       "/repo's source on every run (harness/translate.py: statement skeletons, column slices, status guards, "
+                                       "aggregation tables and the element-wise formulas as functions of one cell) and say that they are the "
+                                       "model's definitions: " + ", ".join(t.replace("Gen.", "") for t in gen_names) + ".")
     checks.append({
         "property_id": pid,
         "quick_cmd": f"./check {pid} quick",
